@@ -36,6 +36,18 @@ check("C03", "model_checking",
       "TLA+ denotational spec enumerated by TLC, spec->impl replay on Context::subtype_of and erg check",
       "DESIGN.md section 6 C03/C32")
 
+check("C11", "model_checking",
+      "Precedence.tla derives token sequences (operands, all 28 binary operators, prefix + - ~, member access, parentheses, numeric literals) and gives each its reference tree by precedence climbing from the documented table; TLC enumerates a op1 b op2 c for every ordered operator pair, every prefix/binary combination, and all sequences with <= 3 binary operators over one representative per level; deeper sequences are sampled. Each sequence is rendered with three spacing styles and parsed by the real lexer+parser in-process; the AST's S-expression must equal the reference tree. A layer-B reading (prefix operator takes the whole expression) classifies one historical defect.",
+      "Trusted: TLC; the reference parser in Precedence.tla; the S-expression printer in harness/vh/src/parse.rs.",
+      "TLA+ derivation machine + reference precedence-climbing operator, exhaustive TLC enumeration, spec->impl replay with tree equality",
+      "DESIGN.md section 6 C11")
+
+check("C10", "model_checking",
+      "Layout.tla models a text as physical lines with the layout rewrites the property lists and checks that the logical-line signature is invariant; TLC enumerates every rewrite sequence of length <= 3 (quick) / 4 (thorough) including removal of layout lines. Each sequence is applied to corpus programs (examples/, tests/should_ok) and generated programs; the real parser must accept the variant, return a tree with the same position-free rendering, and return the same tree when a text is parsed twice.",
+      "Trusted: TLC; the concretisation of abstract rewrites in py/verif/props/c10.py (sites chosen from the real lexer's tokens); comparison through the AST's Display rendering because the crate's == compares locations in a few node kinds.",
+      "TLA+ rewrite system enumerated by TLC, spec->impl replay on the real parser with tree comparison",
+      "DESIGN.md section 6 C10")
+
 NOT_APPLICABLE = {
     "C16": "static comparison of opcode/magic tables with external ground truth: no state or behaviour for a TLA+ specification to constrain (DESIGN.md section 7)",
     "C27": "data audit of ~150 declaration files against installed interpreters/typeshed: no behaviour to model in TLA+ (DESIGN.md section 7)",
